@@ -418,8 +418,14 @@ def main_parent(prop: str, tier: str, replay: str | None) -> int:
 
 
 def write_evidence(prop: str, ev: dict[str, Any]) -> None:
-    out = ROOT / "evidence" / f"{prop}.json"
-    out.parent.mkdir(exist_ok=True)
+    # evidence/ describes runs against /repo itself; a run that monitors another tree (seeded change, mutant) writes elsewhere
+    if os.environ.get("VERIF_EVIDENCE_DIR"):
+        out = Path(os.environ["VERIF_EVIDENCE_DIR"]) / f"{prop}.json"
+    elif REPO != Path("/repo").resolve():
+        out = ROOT / ".scratch" / "evidence-other-tree" / f"{prop}.json"
+    else:
+        out = ROOT / "evidence" / f"{prop}.json"
+    out.parent.mkdir(parents=True, exist_ok=True)
     try:
         import jsonschema
 
